@@ -14,7 +14,7 @@ use alpenglow::network::localhost_ip_sockaddr;
 use alpenglow::repair::{RepairRequest, RepairResponse};
 use alpenglow::{Alpenglow, Disseminator, Stake, Transaction};
 use alpenglow::disseminator::rotor::sampling_strategy::{FaitAccompli1Sampler, PartitionSampler};
-use alpenglow::disseminator::rotor::{IidQuorumSampler, StakeWeightedSampler};
+use alpenglow::disseminator::rotor::{IidQuorumSampler, SamplingStrategy, StakeWeightedSampler};
 use alpenglow::disseminator::{Rotor, TrivialDisseminator, Turbine};
 use alpenglow::network::Network;
 use alpenglow::shredder::{RegularShredder, Shred, Shredder, TOTAL_SHREDS};
@@ -123,6 +123,20 @@ impl AnyRotor {
     }
 }
 
+impl AnyRotor {
+    /// Rotor::with_sampler with the same strategy built over other stakes; None if that sampler cannot be built
+    fn with_weights(self, infos: &[ValidatorInfo]) -> Option<AnyRotor> {
+        let v = infos.to_vec();
+        match self {
+            AnyRotor::New(r) => Some(AnyRotor::New(r.with_sampler(StakeWeightedSampler::new(v).into_quorum_strategy(TOTAL_SHREDS)))),
+            AnyRotor::Fa1(r) => {
+                let s = catch_unwind(AssertUnwindSafe(move || FaitAccompli1Sampler::new_with_partition_fallback(v, TOTAL_SHREDS as u64))).ok()?;
+                Some(AnyRotor::Fa1(r.with_sampler(s)))
+            }
+        }
+    }
+}
+
 fn mk_rotor(fa1: bool, infos: &[ValidatorInfo], own: u64) -> Option<(AnyRotor, RecNet)> {
     let net = RecNet::default();
     let n2 = net.clone();
@@ -193,12 +207,15 @@ pub struct RunResult {
 
 type Node<D> = Alpenglow<TrivialAll2All<Sink<ConsensusMessage, ConsensusMessage>>, D, Sink<(), Transaction>>;
 
-async fn drive<D, F>(infos: Vec<ValidatorInfo>, sks: Vec<SecretKey>, vsks: Vec<aggsig::SecretKey>, slot: u64, leader: u64, mk: F) -> Option<RunResult>
+async fn drive<D, F>(infos: Vec<ValidatorInfo>, sks: Vec<SecretKey>, vsks: Vec<aggsig::SecretKey>, slot: u64, leader: u64,
+                     shreds: Vec<Shred>, sender: Option<D>, sender_net: RecNet, mk: F) -> Option<RunResult>
 where
     D: Disseminator + Send + Sync + 'static,
     F: Fn(RecNet, Arc<ValidatorEpochInfo>) -> Option<D>,
 {
     let n = infos.len() as u64;
+    // the leader's sending side (BlockProducer's disseminator): possibly a reconfigured instance
+    let sender = sender?;
     let mut nodes: Vec<(Node<D>, RecNet)> = Vec::new();
     for own in 0..n {
         let net = RecNet::default();
@@ -209,11 +226,6 @@ where
             Sink::<RepairRequest, RepairResponse>::default(), Sink::<RepairResponse, RepairRequest>::default(), e, Sink::<(), Transaction>::default());
         nodes.push((node, net));
     }
-    // the leader's block: one slice, shredded with the leader's key, sent through Disseminator::send
-    let sender_net = RecNet::default();
-    let sender = mk(sender_net.clone(), epoch(&infos, leader))?;
-    let slices = alpenglow::test_utils::create_random_block(Slot::new(slot), 1);
-    let shreds: Vec<Shred> = RegularShredder::default().shred(&slices[0], &sks[leader as usize]).expect("shredding").into_iter().map(|s| s.into_shred()).collect();
     let mut out = Vec::new();
     let mut leader_relayed = 0u64;
     for (si, shred) in shreds.iter().enumerate() {
@@ -257,7 +269,7 @@ where
 }
 
 /// builds n real nodes with their own keys and runs all shreds of a one-slice block of `leader` through them
-fn real_run(stakes: &[u64], proto: u64, fanout: u64, slot: u64, leader: u64) -> Option<RunResult> {
+fn real_run(stakes: &[u64], proto: u64, fanout: u64, slot: u64, leader: u64, stale: bool) -> Option<RunResult> {
     let rt = tokio::runtime::Builder::new_current_thread().enable_all().build().expect("rt");
     let mut rng = rand::rng();
     let sks: Vec<SecretKey> = stakes.iter().map(|_| SecretKey::new(&mut rng)).collect();
@@ -268,12 +280,57 @@ fn real_run(stakes: &[u64], proto: u64, fanout: u64, slot: u64, leader: u64) -> 
         repair_requester_address: localhost_ip_sockaddr(0), repair_responder_address: localhost_ip_sockaddr(0),
     }).collect();
     let inf2 = infos.clone();
+    // the leader's block: one slice, shredded with the leader's key, sent through Disseminator::send
+    let slices = alpenglow::test_utils::create_random_block(Slot::new(slot), 1);
+    let shreds: Vec<Shred> = RegularShredder::default().shred(&slices[0], &sks[leader as usize]).expect("shredding").into_iter().map(|s| s.into_shred()).collect();
+    // `stale`: the leader's sending instance has been reconfigured there and back (with_sampler / with_fanout)
+    // and has sent this very block under the other configuration before; the receiving nodes are fresh
+    let alt_infos: Vec<ValidatorInfo> = infos.iter().enumerate().map(|(k, v)| { let mut x = v.clone(); x.stake = Stake::new(stakes[(k + 1) % stakes.len()] / 2 + 1 + (k as u64 % 3)); x }).collect();
     let r = catch_unwind(AssertUnwindSafe(|| rt.block_on(async move {
+        let snet = RecNet::default();
+        let e = epoch(&infos, leader);
         match proto {
-            0 => drive(infos, sks, vsks, slot, leader, |net, e| Some(Rotor::new(net, e))).await,
-            1 => drive(infos, sks, vsks, slot, leader, move |net, e| Some(Turbine::new(net, e).with_fanout(fanout as usize))).await,
-            2 => drive(infos, sks, vsks, slot, leader, move |net, _e| Some(TrivialDisseminator::new(inf2.clone(), net))).await,
-            _ => drive(infos, sks, vsks, slot, leader, |net, e| catch_unwind(AssertUnwindSafe(|| Rotor::new_fa1(net, e))).ok()).await,
+            0 => {
+                let sender = if stale {
+                    let r = Rotor::new(snet.clone(), e).with_sampler(StakeWeightedSampler::new(alt_infos).into_quorum_strategy(TOTAL_SHREDS));
+                    for s in &shreds { r.send(s).await.expect("send"); }
+                    snet.drain();
+                    r.with_sampler(StakeWeightedSampler::new(infos.clone()).into_quorum_strategy(TOTAL_SHREDS))
+                } else { Rotor::new(snet.clone(), e) };
+                drive(infos, sks, vsks, slot, leader, shreds, Some(sender), snet, |net, e| Some(Rotor::new(net, e))).await
+            }
+            1 => {
+                let other = if fanout as usize == alpenglow::disseminator::turbine::DEFAULT_FANOUT { 3 } else { alpenglow::disseminator::turbine::DEFAULT_FANOUT };
+                let sender = if stale {
+                    let t = Turbine::new(snet.clone(), e).with_fanout(fanout as usize);
+                    for s in &shreds { t.send(s).await.expect("send"); }
+                    let t = t.with_fanout(other);
+                    for s in &shreds { t.send(s).await.expect("send"); }
+                    snet.drain();
+                    t.with_fanout(fanout as usize)
+                } else { Turbine::new(snet.clone(), e).with_fanout(fanout as usize) };
+                drive(infos, sks, vsks, slot, leader, shreds, Some(sender), snet, move |net, e| Some(Turbine::new(net, e).with_fanout(fanout as usize))).await
+            }
+            2 => {
+                let sender = TrivialDisseminator::new(inf2.clone(), snet.clone());
+                drive(infos, sks, vsks, slot, leader, shreds, Some(sender), snet, move |net, _e| Some(TrivialDisseminator::new(inf2.clone(), net))).await
+            }
+            _ => {
+                let i2 = infos.clone();
+                let sn = snet.clone();
+                let fresh = catch_unwind(AssertUnwindSafe(move || Rotor::new_fa1(sn, e))).ok();
+                let alt_s = if stale { catch_unwind(AssertUnwindSafe(move || FaitAccompli1Sampler::new_with_partition_fallback(alt_infos, TOTAL_SHREDS as u64))).ok() } else { None };
+                let sender = match (fresh, alt_s) {
+                    (Some(r), Some(a)) => {
+                        let r = r.with_sampler(a);
+                        for s in &shreds { r.send(s).await.expect("send"); }
+                        snet.drain();
+                        catch_unwind(AssertUnwindSafe(move || FaitAccompli1Sampler::new_with_partition_fallback(i2, TOTAL_SHREDS as u64))).ok().map(|o| r.with_sampler(o))
+                    }
+                    (f, _) => f,
+                };
+                drive(infos, sks, vsks, slot, leader, shreds, sender, snet, |net, e| catch_unwind(AssertUnwindSafe(|| Rotor::new_fa1(net, e))).ok()).await
+            }
         }
     })));
     drop(rt);
@@ -375,6 +432,44 @@ pub fn gen_c16(seed: u64, tier: Tier) -> CaseSet {
                 }
             }
         }
+        // RECONFIGURED instances (Rotor::with_sampler, the only reconfiguration entry point of Rotor): D answers
+        // everything with the original sampler, is switched to the same strategy over other stakes (`alt`),
+        // answers everything again, is switched back and answers a third time.  A reconfigured instance must
+        // route exactly like a fresh instance with the same final configuration: D-after-switch-back like A/B/C
+        // (this case), D-with-alt like a fresh, never queried instance that was given the alt sampler at once
+        // (a second case whose validator set is `alt`, so the model is compared for that configuration too).
+        let base_views = seen.values().map(|v| v.len()).max().unwrap_or(0);
+        let alt: Vec<u64> = fit_total((0..stakes.len()).map(|k| stakes[(k + 1) % stakes.len()] / 2 + 1 + (k as u64 % 3)).collect());
+        let alt_infos = fac.infos(&alt);
+        let mut seen_alt: HashMap<(u64, u64, u64), Vec<Option<u64>>> = HashMap::new();
+        let mut reconfigured = false;
+        if a.is_some() {
+            if let Some((rd, nd)) = mk_rotor(fa1, &infos, owns[2]) {
+                for (slot, slice, shreds) in &coords {
+                    for sh in shreds { let s = maker.shreds(*slot, *slice)[*sh as usize].clone(); seen.entry((*slot, *slice, *sh)).or_default().push(relay_of(&rd, &nd, &s)); }
+                }
+                let fresh_alt = mk_rotor(fa1, &infos, owns[1]).and_then(|(r, nf)| r.with_weights(&alt_infos).map(|r| (r, nf)));
+                if let (Some(rd2), Some((rf, nf))) = (rd.with_weights(&alt_infos), fresh_alt) {
+                    reconfigured = true;
+                    // the fresh alt instance is asked in reverse order, the switched one in order, twice
+                    for (slot, slice, shreds) in coords.iter().rev() {
+                        for sh in shreds.iter().rev() { let s = maker.shreds(*slot, *slice)[*sh as usize].clone(); seen_alt.entry((*slot, *slice, *sh)).or_default().push(relay_of(&rf, &nf, &s)); }
+                    }
+                    for (slot, slice, shreds) in &coords {
+                        for sh in shreds {
+                            let s = maker.shreds(*slot, *slice)[*sh as usize].clone();
+                            let e = seen_alt.entry((*slot, *slice, *sh)).or_default();
+                            e.push(relay_of(&rd2, &nd, &s)); e.push(relay_of(&rd2, &nd, &s));
+                        }
+                    }
+                    if let Some(rd3) = rd2.with_weights(&infos) {
+                        for (slot, slice, shreds) in coords.iter().rev() {
+                            for sh in shreds { let s = maker.shreds(*slot, *slice)[*sh as usize].clone(); seen.entry((*slot, *slice, *sh)).or_default().push(relay_of(&rd3, &nd, &s)); }
+                        }
+                    }
+                }
+            }
+        }
         let panicked = [a.is_none(), b.is_none(), c.is_none()];
         let cid = o.cases.len() as u64;
         let mut slices_txt = Vec::new();
@@ -387,7 +482,8 @@ pub fn gen_c16(seed: u64, tier: Tier) -> CaseSet {
                 if v.is_empty() { continue; }
                 let agree = v.iter().all(|x| *x == v[0] && x.is_some());
                 if !agree { disagreements += 1; }
-                o.sigs.push((cid, 1 + 100 * j as u64 + *sh, format!("rotor-{}:relay:{}", if fa1 { "fa1" } else { "new" }, if agree { "instances-agree" } else { "instances-disagree" })));
+                let base_agree = v.iter().take(base_views).all(|x| *x == v[0] && x.is_some());
+                o.sigs.push((cid, 1 + 100 * j as u64 + *sh, if base_agree && !agree { "rotor:relay:reconfigured-instance-differs".to_string() } else { format!("rotor-{}:relay:{}", if fa1 { "fa1" } else { "new" }, if agree { "instances-agree" } else { "instances-disagree" }) }));
                 evals += v.len() as u64;
                 qs.push(format!("({}, {})", cf::n(*sh), cf::list(&v.iter().map(r_optn).collect::<Vec<_>>())));
             }
@@ -396,7 +492,30 @@ pub fn gen_c16(seed: u64, tier: Tier) -> CaseSet {
         o.sigs.push((cid, 0, format!("rotor-{}:ctor:{}", if fa1 { "fa1" } else { "new" }, if panicked.iter().any(|p| *p) { "panic" } else { "ok" })));
         let txt = format!("(C16Rotor {} {} {} {} {})", cf::n(cid), r_list(&stakes), cf::b(fa1), cf::list(&panicked.iter().map(|p| cf::b(*p)).collect::<Vec<_>>()), cf::list(&slices_txt));
         let kind = format!("rotor-{}:{}", if fa1 { "fa1" } else { "new" }, if panicked.iter().any(|p| *p) { "ctor-panic" } else if disagreements > 0 { "instances-disagree" } else { "agree" });
-        o.push(txt, format!("case {}: Rotor::{} on {} validators ({}), 3 instances (own {:?}), {} slices", cid, if fa1 { "new_fa1" } else { "new" }, n, famname, owns, coords.len()), evals, !panicked.iter().all(|p| *p), &kind);
+        o.push(txt, format!("case {}: Rotor::{} on {} validators ({}), 3 instances (own {:?}) + 1 reconfigured there and back, {} slices", cid, if fa1 { "new_fa1" } else { "new" }, n, famname, owns, coords.len()), evals, !panicked.iter().all(|p| *p), &kind);
+        if reconfigured {
+            // second case: the configuration reached through with_sampler(alt); first view = fresh instance
+            let cid = o.cases.len() as u64;
+            let mut slices_txt = Vec::new();
+            let mut evals = 1u64;
+            let mut differs = 0u64;
+            for (j, (slot, slice, shreds)) in coords.iter().enumerate() {
+                let mut qs = Vec::new();
+                for sh in shreds {
+                    let v = seen_alt.get(&(*slot, *slice, *sh)).cloned().unwrap_or_default();
+                    if v.is_empty() { continue; }
+                    let agree = v.iter().all(|x| *x == v[0] && x.is_some());
+                    if !agree { differs += 1; }
+                    o.sigs.push((cid, 1 + 100 * j as u64 + *sh, if agree { format!("rotor-{}:relay:instances-agree", if fa1 { "fa1" } else { "new" }) } else { "rotor:relay:reconfigured-instance-differs".to_string() }));
+                    evals += v.len() as u64;
+                    qs.push(format!("({}, {})", cf::n(*sh), cf::list(&v.iter().map(r_optn).collect::<Vec<_>>())));
+                }
+                slices_txt.push(format!("({}, {}, {})", cf::n(*slot), cf::n(*slice), cf::list(&qs)));
+            }
+            o.sigs.push((cid, 0, format!("rotor-{}:ctor:ok", if fa1 { "fa1" } else { "new" })));
+            let txt = format!("(C16Rotor {} {} {} {} {})", cf::n(cid), r_list(&alt), cf::b(fa1), cf::list(&[cf::b(false), cf::b(false)]), cf::list(&slices_txt));
+            o.push(txt, format!("case {}: Rotor::{} on {} validators switched by with_sampler to the same strategy over other stakes: fresh instance vs instance that had answered everything before the switch, {} slices", cid, if fa1 { "new_fa1" } else { "new" }, n, coords.len()), evals, true, &format!("rotor-{}:reconfigured:{}", if fa1 { "fa1" } else { "new" }, if differs > 0 { "differs" } else { "agree" }));
+        }
     }
 
     // ---------------- Turbine: tree positions ----------------
@@ -425,6 +544,12 @@ pub fn gen_c16(seed: u64, tier: Tier) -> CaseSet {
             (t, net)
         };
         let insts: Vec<Vec<(Turbine<RecNet>, RecNet)>> = owns.iter().enumerate().map(|(k, own)| (0..3).map(|v| mk_inst(k + v, *own)).collect()).collect();
+        // a RECONFIGURED instance per own id (Turbine::with_fanout, the only reconfiguration entry point): it
+        // answers the triples under the final fanout, is switched to another fanout (to the default if the final
+        // one is not the default, else to 3), answers again, is switched back and must then route exactly like
+        // the fresh instances with the final fanout
+        let other_fanout: usize = if fanout as usize == alpenglow::disseminator::turbine::DEFAULT_FANOUT { 3 } else { alpenglow::disseminator::turbine::DEFAULT_FANOUT };
+        let mut reconf: Vec<Option<(Turbine<RecNet>, RecNet)>> = owns.iter().map(|own| { let net = RecNet::default(); Some((Turbine::new(net.clone(), epoch(&infos, *own)).with_fanout(fanout as usize), net)) }).collect();
         // triples: blocks with several slices in one slot, the same index within the slice in every slice,
         // two slots.  A tree cached under (slot, index within the slice) instead of (slot, index in the slot),
         // or under the slot alone, makes the answer depend on what was asked first.
@@ -476,17 +601,30 @@ pub fn gen_c16(seed: u64, tier: Tier) -> CaseSet {
                 }
             }
         }
+        let base_views = 4usize;
+        // the reconfigured instances: phase 1 (final fanout, first half of the triples), phase 2 (other fanout,
+        // all triples, answers not recorded: they belong to another configuration), phase 3 (back, all triples)
+        for k in 0..owns.len() {
+            let (inst, net) = reconf[k].take().unwrap();
+            for t in 0..ntrees.div_ceil(2) { let (slot, slice, sh) = triples[t]; let shred = maker.shreds(slot, slice)[sh as usize].clone(); let _ = ask(&inst, &net, &shred); evals += 1; }
+            let inst = inst.with_fanout(other_fanout);
+            for t in 0..ntrees { let (slot, slice, sh) = triples[t]; let shred = maker.shreds(slot, slice)[sh as usize].clone(); let _ = ask(&inst, &net, &shred); evals += 1; }
+            let inst = inst.with_fanout(fanout as usize);
+            for t in (0..ntrees).rev() { let (slot, slice, sh) = triples[t]; let shred = maker.shreds(slot, slice)[sh as usize].clone(); views[t][k].push(ask(&inst, &net, &shred)); evals += 1; }
+        }
         let mut trees_txt = Vec::new();
         for (t, (slot, slice, sh)) in triples.iter().enumerate() {
             let mut obs = Vec::new();
             let mut same = true;
+            let mut base_same = true;
             for (k, own) in owns.iter().enumerate() {
                 let vs = &views[t][k];
                 if vs.iter().any(|x| *x != vs[0]) { same = false; }
+                if vs.iter().take(base_views).any(|x| *x != vs[0]) { base_same = false; }
                 obs.push(format!("({}, {})", cf::n(*own), cf::list(&vs.iter().map(|g| match g { Some((r, ch)) => format!("(Some ({}, {}))", cf::n(*r), r_list(ch)), None => "None".into() }).collect::<Vec<_>>())));
             }
             let roots: HashSet<Option<u64>> = views[t].iter().map(|vs| vs[0].as_ref().map(|x| x.0)).collect();
-            let class = if !same { "instances-disagree" } else if roots.len() == 1 && !roots.contains(&None) { "one-view" } else { "roots-differ-or-panic" };
+            let class = if !same && base_same { "reconfigured-instance-differs" } else if !same { "instances-disagree" } else if roots.len() == 1 && !roots.contains(&None) { "one-view" } else { "roots-differ-or-panic" };
             o.sigs.push((cid, 1 + t as u64, format!("turbine:tree:{}", class)));
             trees_txt.push(format!("({}, {}, {}, {})", cf::n(*slot), cf::n(*slice), cf::n(*sh), cf::list(&obs)));
         }
@@ -519,7 +657,8 @@ pub fn gen_c16(seed: u64, tier: Tier) -> CaseSet {
         let slice = 0u64;
         let leader = (slot / 4) % n;
         let cid = o.cases.len() as u64;
-        let res = real_run(&stakes, proto, fanout, slot, leader);
+        let stale = i % 3 == 1 && proto != 2;
+        let res = real_run(&stakes, proto, fanout, slot, leader, stale);
         let mut shreds_txt = Vec::new();
         let mut evals = 0;
         let name = ["rotor-new", "turbine", "trivial", "rotor-fa1"][proto as usize];
@@ -540,13 +679,13 @@ pub fn gen_c16(seed: u64, tier: Tier) -> CaseSet {
                     shreds_txt.push(format!("({}, {}, {})", cf::n(*si), r_list(deliveries), cf::n(*broadcasts)));
                 }
                 let txt = format!("(C16Run {} {} {} {} {} {} {} {})", cf::n(cid), r_list(&stakes), cf::n(proto), cf::n(fanout), cf::n(slot), cf::n(slice), r_list(&r.stored), cf::list(&shreds_txt));
-                o.push(txt, format!("case {}: loss-free run of real nodes, {} on {} validators ({}{}), slot {} slice {} leader {}, leader relayed {} of its own shreds", cid, match proto { 0 => "Rotor::new".to_string(), 1 => format!("Turbine fanout {}", fanout), 2 => "TrivialDisseminator".to_string(), _ => "Rotor::new_fa1".to_string() }, n, famname, if heavy { ", heavy leader" } else { "" }, slot, slice, leader, r.leader_relayed), evals, true, &format!("run:{}", name));
+                o.push(txt, format!("case {}: loss-free run of real nodes, {} on {} validators ({}{}), slot {} slice {} leader {}{}, leader relayed {} of its own shreds", cid, match proto { 0 => "Rotor::new".to_string(), 1 => format!("Turbine fanout {}", fanout), 2 => "TrivialDisseminator".to_string(), _ => "Rotor::new_fa1".to_string() }, n, famname, if heavy { ", heavy leader" } else { "" }, slot, slice, leader, if stale { ", sending side reconfigured there and back after having sent the block" } else { "" }, r.leader_relayed), evals, true, &format!("run:{}", name));
             }
         }
     }
     o.stats.distribution.push(("runs_where_the_leader_relays_its_own_shreds".into(), format!("rotor={}, turbine-inner-node={}", leader_is_relay_runs, leader_inner_runs)));
 
-    o.stats.rule = "StdRng word streams for fixed and random seeds under u32 / u64 call patterns that straddle the 64-word buffer; Rotor: n in {1,2,3,5,10,64,200,1000} (thorough: also 100, 2000), the stake families of C17, both constructors (Rotor::new, Rotor::new_fa1), three independently constructed instances per configuration (own id 0 / n-1 / random; constructed before, between and after the other instances' queries; queried in order, in reverse order, and twice in a row with the slices interleaved = cold and warm cache), slots 0 / small / 2^64-1.. / random magnitudes, slices 0 / 1023 / random, shreds 0 / 63 / random; Turbine: n in {1,2,3,5,10,17,64,200,1000}, fanouts {1,2,3,200}, three independently constructed instances per own id (every validator for n <= 17 = complete trees, otherwise own ids 0, n-1 and three random ones), triples = two slots x slices {0, 1, random} x two indices within the slice, asked in three different orders (as listed / reversed: other slot and slice 1 first / grouped by index with slices descending, each twice = cold and warm cache), instances reconfigured through with_fanout, zero-stake validators in every fifth configuration; loss-free runs of REAL Alpenglow nodes (own keys, blockstore, pool, votor; every datagram recorded on the network is handed to the addressed node's handle_disseminator_shred) for all 64 shreds of a one-slice block signed by the slot's leader, n in {1,2,3,5,10,33} (thorough: 64), Rotor::new / Rotor::new_fa1 / Turbine (4 fanouts) / trivial, every other run with a heavy validator that leads the slot (leader = relay, leader = inner tree node), FIFO delivery until quiescence, blockstores inspected afterwards; non-trivial = at least one instance constructed; distinct by content".into();
+    o.stats.rule = "StdRng word streams for fixed and random seeds under u32 / u64 call patterns that straddle the 64-word buffer; Rotor: n in {1,2,3,5,10,64,200,1000} (thorough: also 100, 2000), the stake families of C17, both constructors (Rotor::new, Rotor::new_fa1), three independently constructed instances per configuration plus one that answers everything, is switched by with_sampler to the same strategy over other stakes, answers again (compared with a fresh instance of that configuration and with the model for it), is switched back and answers a third time (own id 0 / n-1 / random; constructed before, between and after the other instances' queries; queried in order, in reverse order, and twice in a row with the slices interleaved = cold and warm cache), slots 0 / small / 2^64-1.. / random magnitudes, slices 0 / 1023 / random, shreds 0 / 63 / random; Turbine: n in {1,2,3,5,10,17,64,200,1000}, fanouts {1,2,3,200}, three independently constructed instances plus one reconfigured by with_fanout to another fanout and back (after answering under both) per own id (every validator for n <= 17 = complete trees, otherwise own ids 0, n-1 and three random ones), triples = two slots x slices {0, 1, random} x two indices within the slice, asked in three different orders (as listed / reversed: other slot and slice 1 first / grouped by index with slices descending, each twice = cold and warm cache), instances reconfigured through with_fanout, zero-stake validators in every fifth configuration; loss-free runs of REAL Alpenglow nodes (own keys, blockstore, pool, votor; every datagram recorded on the network is handed to the addressed node's handle_disseminator_shred) for all 64 shreds of a one-slice block signed by the slot's leader, n in {1,2,3,5,10,33} (thorough: 64), Rotor::new / Rotor::new_fa1 / Turbine (4 fanouts) / trivial, every other run with a heavy validator that leads the slot (leader = relay, leader = inner tree node), every third run with a sending side that was reconfigured (with_sampler / with_fanout) there and back after having sent the block under the other configuration, FIFO delivery until quiescence, blockstores inspected afterwards; non-trivial = at least one instance constructed; distinct by content".into();
     let mut v: Vec<_> = o.kinds.iter().collect(); v.sort();
     o.stats.distribution.push(("case_kinds".into(), v.iter().map(|(k, c)| format!("{}={}", k, c)).collect::<Vec<_>>().join(", ")));
     CaseSet { header: "From AG Require Import Model.Sampling Model.Routing Oracle.C16.\n".to_string(), runner: "c16_run".to_string(), defs: Vec::new(), cases: o.cases, descr: o.descr, sigs: o.sigs, stats: o.stats }
